@@ -12,6 +12,7 @@ import Kap.Proofs.C04Trap
 import Kap.Proofs.C04Ref
 import Kap.Proofs.C04Point
 import Kap.Proofs.C04World
+import Kap.Proofs.C04Re
 import Kap.Gen.C04Sigs
 import Kap.Model.C04Legacy
 import Kap.Gen.C04
@@ -401,5 +402,73 @@ example :
     let qs : List (Question Int) := [(0, .eval, []), (0, .eval, []), (0, .eval, [])]
     World.run toyCtx e (World.init toyCtx e) qs = [.ok (.int 1), .ok (.int 4), .ok (.int 9)] ∧
     refRun toyCtx e (fun _ => {}) qs = [.ok (.int 1), .ok (.int 4), .ok (.int 9)] := by decide
+
+/-! ### The defined regex fragment behind `=~` / `!~`: literal bytes and the text anchors `^ \A $ \z`
+
+For patterns of this fragment (`Re.atoms`, Model/C04Re.lean) the matcher is DEFINED in the model (`Re.matchB`) and used by
+model and reference alike instead of the library oracle; the correspondence run compares it with the real evaluator and
+with `regexp.MatchString` on pattern / subject pairs generated to separate the readings of a pattern. -/
+
+/-- **regex_fragment_is_search_semantics.** For EVERY sequence of atoms (byte, beginning of text, end of text - in any order
+and number) and EVERY subject, the scanning matcher answers true exactly when the pattern matches the subject in the
+declarative semantics of an unanchored regex search (`Re.Matches`: the subject can be cut at a position from which the atoms
+match one after the other, a byte consuming that byte, `^` holding only with nothing before, `$` only with nothing after). -/
+theorem regex_fragment_is_search_semantics (as : List Re.Atom) (s : Bytes) :
+    Re.matchB as s = true ↔ Re.Matches as s := Re.matchB_iff as s
+
+/-- **regex_anchored_literal_closed_form.** What literals and anchors mean: for a pattern of the shape `[^] literal [$]`
+(`Re.shape`), on EVERY subject: both anchors - the subject IS the literal; `^` only - the literal is a prefix; `$` only - a
+suffix; no anchor - the literal occurs somewhere in the subject. (An evaluator that answers an anchored literal by a
+substring search, or drops one of the anchors, contradicts this on every subject that contains the literal properly.) -/
+theorem regex_anchored_literal_closed_form (as : List Re.Atom) (st en : Bool) (w s : Bytes)
+    (h : Re.shape as = some (st, w, en)) :
+    Re.matchB as s = true ↔
+      (match st, en with
+       | true, true => s = w
+       | true, false => w <+: s
+       | false, true => w <:+ s
+       | false, false => w <:+: s) := by
+  have hs := Re.shape_sound as st en w h
+  subst hs
+  rw [Re.matchB_iff]
+  cases st <;> cases en
+  · simpa [Re.ofShape] using Re.matches_lits w s
+  · simpa [Re.ofShape] using Re.matches_lits_eol w s
+  · simpa [Re.ofShape] using Re.matches_bol_lits w s
+  · simpa [Re.ofShape] using Re.matches_bol_lits_eol w s
+
+/-- non-vacuity: `/^web01$/`, `/\Aweb01\z/` and `/^a\.b$/` are patterns of the fragment, of the anchored-literal shape. -/
+example :
+    (Re.atoms [0x5E, 0x77, 0x65, 0x62, 0x30, 0x31, 0x24]).bind Re.shape = some (true, [0x77, 0x65, 0x62, 0x30, 0x31], true) ∧
+    (Re.atoms [0x5C, 0x41, 0x77, 0x65, 0x62, 0x30, 0x31, 0x5C, 0x7A]).bind Re.shape = some (true, [0x77, 0x65, 0x62, 0x30, 0x31], true) ∧
+    (Re.atoms [0x5E, 0x61, 0x5C, 0x2E, 0x62, 0x24]).bind Re.shape = some (true, [0x61, 0x2E, 0x62], true) ∧
+    Re.atoms [0x5E, 0x61, 0x2E, 0x62, 0x24] = none ∧          -- `/^a.b$/`: an unescaped dot is outside the fragment
+    Re.atoms [0x28, 0x3F, 0x69, 0x29, 0x61] = none := by decide  -- `/(?i)a/` too
+
+/-- **regex_operator_on_anchored_literal.** The reference operators on such a pattern, for any matcher that answers the
+patterns of the fragment by the definition (as the driver's does): `s =~ /^w$/` is `s = w` and `s !~ /^w$/` is `s ≠ w` -
+whatever else `s` contains. With `table_sound` this is what the `=~` / `!~` entries of evaluation_funcs.go compute. -/
+theorem regex_operator_on_anchored_literal {F : Type} (ops : FOps F) (reMatch : Bytes → Bytes → Option Bool)
+    (hre : ∀ p s b, Re.native p s = some b → reMatch p s = some b)
+    (p w s : Bytes) (as : List Re.Atom) (hp : Re.atoms p = some as) (hs : Re.shape as = some (true, w, true)) :
+    refBinop ops reMatch .reEq (.str s) (.regex p) = .ok (.bool (decide (s = w))) ∧
+    refBinop ops reMatch .reNe (.str s) (.regex p) = .ok (.bool (!decide (s = w))) := by
+  have hcf := regex_anchored_literal_closed_form as true true w s hs
+  have hb : Re.matchB as s = decide (s = w) := by
+    cases hm : Re.matchB as s
+    · have : ¬ s = w := fun e => by rw [hcf.2 e] at hm; cases hm
+      simp [this]
+    · simp [hcf.1 hm]
+  have hn : reMatch p s = some (decide (s = w)) := hre p s _ (by simp [Re.native, hp, hb])
+  simp [refBinop, hn]
+
+/-- **anchored_literal_is_not_a_substring_search** (the separating input). `/^web01$/` against `web011`: the subject
+contains the literal (`strings.Contains` is true), the pattern does not match it; against `web01` it does. -/
+theorem anchored_literal_is_not_a_substring_search :
+    let p : Bytes := [0x5E, 0x77, 0x65, 0x62, 0x30, 0x31, 0x24]
+    let w : Bytes := [0x77, 0x65, 0x62, 0x30, 0x31]
+    Re.native p (w ++ [0x31]) = some false ∧ Lib.contains (w ++ [0x31]) w = true ∧
+    Re.native p ([0x78] ++ w) = some false ∧ Lib.contains ([0x78] ++ w) w = true ∧
+    Re.native p w = some true := by decide
 
 end Kap.Props.C04
